@@ -640,9 +640,11 @@ func TestRaceChangeSetSnapshots(t *testing.T) {
 						return
 					}
 					// the change count on its own is that of some prefix of the writer's sequence too
-					if cnt := mpt.GetChangeCount(); !validChanges[cnt] {
-						fail("GetChangeCount returned %d; after no prefix of the writer's sequence are there that many changed nodes", cnt)
-						return
+					for rep := 0; rep < 25; rep++ {
+						if cnt := mpt.GetChangeCount(); !validChanges[cnt] {
+							fail("GetChangeCount returned %d; after no prefix of the writer's sequence are there that many changed nodes", cnt)
+							return
+						}
 					}
 					// GetDeletes on its own is atomic too: its size is that of some prefix of the writer's sequence
 					r1 := mpt.GetRoot()
